@@ -8,6 +8,7 @@
 #include <zlib.h>
 #include <lzma.h>
 #include <dirent.h>
+#include <deque>
 using namespace vh;
 using namespace CDNS;
 
@@ -43,7 +44,7 @@ static bool unxz(const std::string& z, std::string& out) {
 // ------------------------------------------------------------------ one history
 enum Sink { S_MEM, S_FILE, S_FD };
 struct Run { std::string cfg; int sink = S_MEM; int comp = 0; };
-static std::string g_dir; static std::string g_profile;
+static std::string g_dir; static std::string g_profile; static bool g_abstract_key = false;
 static std::map<uint64_t, Pools> g_pools;
 static const Pools& pools(uint64_t tps) { auto it = g_pools.find(tps); if (it == g_pools.end()) it = g_pools.emplace(tps, make_pools(tps)).first; return it->second; }
 
@@ -52,7 +53,7 @@ struct Viol { std::string key, what; };
 static std::string msg_class(const std::string& m) { std::string c; for (char ch : m) { if (isdigit((unsigned char)ch)) { if (c.empty() || c.back() != '#') c.push_back('#'); } else c.push_back(ch); } return c.substr(0, 70); }
 
 // returns true if the history is inside the documented preconditions (counted), false if pruned
-static bool run_history(const Cfg& cfg, const Run& run, const std::vector<Op>& h, Result& R, std::vector<Viol>& V) {
+static bool run_history(const Cfg& cfg, const Run& run, const std::vector<Op>& h, Result& R, std::vector<Viol>& V, std::string* state_key = nullptr) {
     std::vector<BlockParameters> bps; std::vector<model::Params> mps;
     for (auto& s : cfg.sets) { bps.push_back(build_bp(s)); mps.push_back(model::from(bps.back())); }
     BlockParameters extra = build_bp(cfg.extra);
@@ -122,6 +123,25 @@ static bool run_history(const Cfg& cfg, const Run& run, const std::vector<Op>& h
                  " model " + std::to_string(M.cur.qrs.size()) + "/" + std::to_string(M.cur.aec.size()) + "/" + std::to_string(M.cur.mms.size()) + "/" + std::to_string(M.cur.items()) + "/" + std::to_string(M.blocks_written) + "/" + std::to_string(M.active));
             ok = false; break;
         }
+    }
+    if (state_key && ok) {
+        // canonical state = reference-model state + digest of the implementation's private members (two histories are merged only if both agree)
+        // abstract key (--abstract): the encoder's position-dependent state (fill level, staged bytes, number of outputs) is left out and the
+        // block counter saturates at 2 - position independence of the encoder is C06's exhaustive result, the buffering logic never reads them
+        std::ostringstream k;
+        if (g_abstract_key) { k << "bpi" << M.cur.bpi << "s" << M.cur.stats << "Q"; for (auto& q : M.cur.qrs) k << std::hash<std::string>()(q) << ","; k << "A"; for (auto& x : M.cur.aec) k << std::hash<std::string>()(x.first) << ":" << std::min<uint64_t>(x.second, 2) << ","; k << "M"; for (auto& m : M.cur.mms) k << std::hash<std::string>()(m) << ","; }
+        else k << M.cur.dump();
+        k << "|v" << M.cur_version << "|a" << M.active << "|bw" << (g_abstract_key ? std::min<size_t>(M.blocks_written, 2) : M.blocks_written) << "|np" << M.params.size() << "|hp" << M.outs.back().header_params << "|ver";
+        for (auto v : M.versions) k << v << ","; for (auto v : M.outs.back().header_versions) k << v << ".";
+        auto& enc = E->m_encoder; size_t fill = enc.m_p - enc.m_buffer; uint64_t hsh = 1469598103934665603ULL; for (size_t i = 0; i < fill; i++) { hsh ^= enc.m_buffer[i]; hsh *= 1099511628211ULL; }
+        auto& b = E->m_block;
+        if (!g_abstract_key) k << "#f" << fill << "h" << hsh << "bw" << E->m_blocks_written << "o" << (run.sink == S_MEM ? mem.size() : names.size());
+        k << "a" << E->m_active_block_parameters << "q" << b.m_query_responses.size() << "e" << b.m_address_event_counts.size() << "m" << b.m_malformed_messages.size()
+          << "t" << b.m_ip_address.size() << "," << b.m_classtype.size() << "," << b.m_name_rdata.size() << "," << b.m_qr_sig.size() << "," << b.m_qlist.size() << "," << b.m_qrr.size() << "," << b.m_rrlist.size() << "," << b.m_rr.size() << "," << b.m_malformed_message_data.size()
+          << "e" << b.m_block_preamble.earliest_time.m_secs << "." << b.m_block_preamble.earliest_time.m_ticks << "i" << b.get_block_parameters_index() << "s" << (b.m_block_statistics ? 1 : 0)
+          << "p" << b.m_block_parameters.storage_parameters.max_block_items << "," << b.m_block_parameters.storage_parameters.ticks_per_second << "," << b.m_block_parameters.storage_parameters.storage_hints.query_response_hints << "," << b.m_block_parameters.storage_parameters.storage_hints.query_response_signature_hints
+          << "," << (int)b.m_block_parameters.storage_parameters.storage_hints.rr_hints << "," << (int)b.m_block_parameters.storage_parameters.storage_hints.other_data_hints << "fp" << E->m_file_preamble.block_parameters_size();
+        *state_key = k.str();
     }
     size_t last_blocks = M.outs.back().blocks.size();
     E.reset();   // destruction closes the last output
@@ -261,6 +281,36 @@ int main(int argc, char** argv) {
     for (size_t c = 0; c < pf.cfgs.size(); c++) for (size_t r = 0; r < pf.runs.size(); r++) {
         tasks.push_back({c, r, -1, -1});
         for (size_t i = 0; i < A; i++) { tasks.push_back({c, r, (int)i, -1}); if (D >= 2) for (size_t j = 0; j < A; j++) tasks.push_back({c, r, (int)i, (int)j}); }
+    }
+    if (a.kv.count("bfs")) {
+        // explicit-state search with de-duplication: state = history reaching it (replayed on a fresh exporter), frontier expanded breadth first,
+        // every transition executed on the real object and fully checked (incl. the outputs after destruction); extensions of an already seen state are pruned
+        int DB = atoi(a.kv["bfs"].c_str()); g_abstract_key = a.kv.count("abstract") > 0;
+        struct BT { size_t cfg, run; }; std::vector<BT> bts; for (size_t c = 0; c < pf.cfgs.size(); c++) for (size_t r = 0; r < pf.runs.size(); r++) bts.push_back({c, r});
+        Pool bp(a.jobs);
+        bp.run(bts.size(), [&](uint64_t ti, Result& R) {
+            const Cfg& cfg = pf.cfgs[bts[ti].cfg]; const Run& run = pf.runs[bts[ti].run];
+            std::set<std::string> seen; std::deque<std::vector<Op>> frontier; std::string k0; { std::vector<Viol> V; run_history(cfg, run, {}, R, V, &k0); } seen.insert(k0); frontier.push_back({}); size_t maxd = 0;
+            while (!frontier.empty()) {
+                std::vector<Op> h = frontier.front(); frontier.pop_front(); if ((int)h.size() >= DB) continue;
+                if (a.expired()) { R.deadline_hit = true; break; }
+                for (auto& op : alpha) {
+                    std::vector<Op> h2 = h; h2.push_back(op); std::string rep = "cfg=" + cfg.name + ";sink=" + std::to_string(run.sink) + ";comp=" + std::to_string(run.comp) + ";ops=" + hist_str(h2); set_note(rep);
+                    std::vector<Viol> V; std::string key; bool counted = run_history(cfg, run, h2, R, V, &key);
+                    if (!counted) { R.count("pruned_precondition"); continue; }
+                    R.count("traces"); R.count("nontrivial"); R.count("bfs_transitions");
+                    for (auto& v : V) R.violation(a.mode + "|" + v.key, v.what, rep);
+                    if (!V.empty() || key.empty()) continue;
+                    if (seen.insert(key).second) { frontier.push_back(h2); maxd = std::max(maxd, h2.size()); }
+                }
+            }
+            R.count("states", seen.size()); R.outcome("cfg-" + cfg.name + ":states=" + std::to_string(seen.size()) + ":depth=" + std::to_string(maxd));
+            R.sample("cfg=" + cfg.name + ": " + std::to_string(seen.size()) + " distinct states, deepest new state at depth " + std::to_string(maxd) + " (bound " + std::to_string(DB) + ")");
+            if ((int)maxd < DB) R.count("bfs_fixpoints");   // no new state at the last explored depths: the reachable state space is exhausted
+        }, [&](uint64_t, const std::string& d, Result& R) { R.violation(a.mode + "|" + crash_key(d), "worker crashed running " + bp.last_note + ": " + d.substr(0, 2000), bp.last_note); }, total);
+        total.n["evaluations"] = total.n["traces"]; total.n["transitions"] = total.n["bfs_transitions"];
+        total.notes.push_back("BFS with state de-duplication, depth bound " + std::to_string(DB) + ", state key = model state + digest of exporter/encoder/block private members");
+        a.finish(total); rm_rf(g_dir); return 0;
     }
     Pool pool(a.jobs);
     std::set<std::string> model_states;
